@@ -114,7 +114,7 @@ BfsPathsOK(r) ==
 \* C19: neighbourhood scans bounded by the size of the graph
 BfsScansOK(r) == r.scans1 <= r.V /\ r.scans2 <= r.V + r.E
 
-BfsRecordOK(r) == BfsDistOK(r) /\ BfsPredOK(r) /\ BfsAllPredOK(r) /\ BfsPathsOK(r) /\ BfsScansOK(r)
+BfsResultsOK(r) == BfsDistOK(r) /\ BfsPredOK(r) /\ BfsAllPredOK(r) /\ BfsPathsOK(r)
 
 \* C12: minimum weighted distances and a consistent tree
 DijkstraDistOK(r) ==
@@ -130,7 +130,7 @@ DijkstraTreeOK(r) ==
              /\ p \in VS(r.g.n) /\ RecE(r, p, v) /\ r.dist[p + 1] # INF
              /\ r.dist[v + 1] = r.dist[p + 1] + RecW(r, p, v)
 DijkstraScansOK(r) == r.scans <= r.V + r.E + 1
-DijkstraRecordOK(r) == DijkstraDistOK(r) /\ DijkstraTreeOK(r) /\ DijkstraScansOK(r)
+DijkstraResultsOK(r) == DijkstraDistOK(r) /\ DijkstraTreeOK(r)
 
 \* C10: getSubgraphWithRemap - a one-to-one map from S onto 0..|S|-1 under which the
 \* result has exactly the edges and labels of the induced subgraph (any bijection)
@@ -154,8 +154,14 @@ RemapOK(r) ==
                                   (IF u <= w THEN r.g.lab[u + 1][w + 1] ELSE r.g.lab[w + 1][u + 1]))
     /\ r.h.en = Cardinality({p \in VS(r.h.n) \X VS(r.h.n) : canon(p[1], p[2]) /\ r.h.adj[p[1] + 1][p[2] + 1] > 0})
 
-RecordOK(r) ==
-    CASE r.k = "bfs"      -> BfsRecordOK(r)
-      [] r.k = "dijkstra" -> DijkstraRecordOK(r)
+\* C10, C11, C12: the results
+ResultsOK(r) ==
+    CASE r.k = "bfs"      -> BfsResultsOK(r)
+      [] r.k = "dijkstra" -> DijkstraResultsOK(r)
       [] r.k = "remap"    -> RemapOK(r)
+\* C19: the amount of work
+ScansOK(r) ==
+    CASE r.k = "bfs"      -> BfsScansOK(r)
+      [] r.k = "dijkstra" -> DijkstraScansOK(r)
+      [] OTHER            -> TRUE
 =============================================================================
